@@ -732,6 +732,21 @@ func genHeadingDoc(r *Rng) []byte {
 		} else {
 			h = fmt.Sprintf("%s %s%s\n", strings.Repeat("#", level), t, pick(r, []string{"", "", " #", " ##  "}))
 		}
+		switch rr := r.Split("more-containers"); {
+		case rr.Chance(1, 12):
+			// a Setext heading whose paragraph starts with link reference definitions (they are
+			// removed from the paragraph before it becomes the heading) - or consists of nothing else
+			if setextOK && !strings.HasPrefix(h, "#") {
+				h = "[r" + fmt.Sprint(rr.Intn(3)) + "]: /u" + pick(rr, []string{"", " 't'"}) + "\n" + h
+			} else {
+				h = "[r1]: /u\n[r2]: /v\n===\n\n" + h
+			}
+		case rr.Chance(1, 12):
+			// three containers deep, with a lazy continuation line after it
+			h = "[^g]: > 1. " + prefixLinesAfterFirst(h, "    >    ") + pick(rr, []string{"", "lazy\n"}) + "\nref[^g]\n"
+		case rr.Chance(1, 16):
+			h = "- > " + prefixLinesAfterFirst(h, "  > ") + "\n  > - " + prefixLinesAfterFirst(h, "  >   ")
+		}
 		switch r.Intn(8) {
 		case 0:
 			h = prefixLines(h, "> ")
